@@ -35,7 +35,7 @@ def run(ctx):
     design["mapIter"] = "refuted: " + r.violated
     outp = ctx.path("mapscan.json")
     ctx.run_vh(["mapscan", "-out", outp])
-    emitters = json.load(open(outp))["map_emitters"]
+    emitters = json.load(open(outp))["map_emitters"] or []
 
     gdir = gen_common.generate(ctx, "c02")
     runs = []
@@ -83,6 +83,7 @@ def run(ctx):
 
     procs = cross_process(ctx, thorough)
     procs["analyzer"] = analyzer_repeats(ctx, thorough)
+    procs["illtyped"] = illtyped_processes(ctx, thorough)
     st, tr = vlib.tlc_states_total(ctx)
     cov = {
         "states": st, "transitions": tr, "traces_validated_against_impl": len(runs),
@@ -142,4 +143,40 @@ def cross_process(ctx, thorough):
                 i = next((j for j in range(min(len(a), len(b))) if a[j] != b[j]), min(len(a), len(b)))
                 ctx.fail("OutputDiffersAcrossProcesses", "run %d (-concurrency %d) differs from the first run at line %d: %r vs %r"
                          % (n, k, i + 1, a[i] if i < len(a) else None, b[i] if i < len(b) else None), {"k": k})
+    return {"invocations": n, "lines": len((base or "").splitlines())}
+
+
+def illtyped_processes(ctx, thorough):
+    """The check command also analyses packages that do not type-check (corpus/illtyped: imports sharing one local name, things
+    declared twice, identifiers without declaration). go/types records an object for every one of the clashing imports, so tables
+    keyed by object hold several entries per name - Determinism.tla's mapIter discipline with k >= 2 keys. The output of repeated
+    processes must be byte-identical."""
+    import shutil
+    binp = ctx.build_repo_bin("cmd/go-critic")
+    d = os.path.join(ctx.scratch, "illtyped_ws")
+    if not os.path.exists(d):
+        shutil.copytree(os.path.join(vlib.VERIF, "corpus", "illtyped"), d)
+    base = None
+    n = 0
+    reps = 40 if thorough else 14
+    for rep in range(reps):
+        rc, lines, raw = wsmod.run_cli(binp, d, ["-enableAll", "./..."])
+        n += 1
+        if "panic:" in raw:
+            ctx.fail("Crash", "go-critic crashed on corpus/illtyped: " + raw[-500:], {})
+            break
+        diag = [l for l in lines if ": importShadow: " in l or ": dupImport: " in l]
+        if base is None:
+            base = raw
+            pos = [l.split(": ")[0] for l in diag if "importShadow" in l]
+            if len(pos) - len(set(pos)) < 3:
+                raise vlib.Infra("corpus/illtyped: fewer than 3 places with several importShadow diagnostics (%d lines)" % len(diag))
+        elif raw != base:
+            a, b = base.splitlines(), raw.splitlines()
+            i = next((j for j in range(min(len(a), len(b))) if a[j] != b[j]), min(len(a), len(b)))
+            chk = (a[i].split(": ") + ["?", "?"])[1] if i < len(a) else "?"
+            ctx.fail("OutputDiffersAcrossProcesses illtyped %s" % chk,
+                     "package that does not type-check (several imports under one name): run %d of `check -enableAll ./...` differs from the first at line %d: %r vs %r"
+                     % (n, i + 1, a[i] if i < len(a) else None, b[i] if i < len(b) else None), {"line": i + 1})
+            break
     return {"invocations": n, "lines": len((base or "").splitlines())}
